@@ -100,6 +100,7 @@ CANARIES = {
     ],
     "C09": [
         ("order-entry-lost", "stix2/equivalence/pattern/compare/comparison.py", "drop-list-element", ["'LIKE'"], "C09.producers-handlers"),
+        ("two-huge-float-literals-are-one-constant", "stix2/patterns.py", "text", ['        if not math.isfinite(self.value):', '        if self.value != self.value:'], "C09.sets-and-numbers"),
         ("comparator-not-mirror", "stix2/equivalence/pattern/compare/comparison.py", "negate-if", ["object_path_cmp", "path1.object_type_name < path2.object_type_name"], "C09.comparator-mirror"),
         ("copy-loses-not", "stix2/equivalence/pattern/transform/comparison.py", "text", ["ast.operator, new_object_path, ast.rhs, ast.negated,", "ast.operator, new_object_path, ast.rhs,"], "C09.copy-complete"),
         ("set-semantics-containment", "stix2/equivalence/pattern/transform/observation.py", "text", ["                    del container[i]\n", "                    pass\n"], "C09.distinct-bindings"),
@@ -115,6 +116,7 @@ CANARIES = {
         ("escape-order", "stix2/patterns.py", "swap-args", ["escape_quotes_and_backslashes", "replace("], "C10.escape-order"),
         ("within-refuses-float", "stix2/patterns.py", "text", ["if isinstance(number_of_seconds, (IntegerConstant, FloatConstant)):", "if isinstance(number_of_seconds, IntegerConstant):"], "C10.token-domain"),
         ("float-exponent-form", "stix2/patterns.py", "text", ['        if "e" in text or "E" in text:', '        if False:'], "C10.float-literal-form"),
+        ("non-finite-float-constant", "stix2/patterns.py", "text", ['        if not math.isfinite(self.value):', '        if False:'], "C10.float-literal-form"),
         ("quoted-step-before-star", "stix2/pattern_visitor.py", "text", ["""                        current.property_name if isinstance(current, BasicObjectPathComponent) else str(current),
                         next.getText(),""", """                        current.property_name,
                         next.getText(),"""], "C10.path-step-kinds"),
